@@ -620,7 +620,7 @@ func c04CheckProg(c c04ProgCase) h.Result {
 		panic("c04: malformed case")
 	}
 	regs := make([]Element, n)
-	bnd := make([][]uint64, n)  // tracked inclusive per-limb bounds (from documented post-conditions only)
+	bnd := make([][]uint64, n) // tracked inclusive per-limb bounds (from documented post-conditions only)
 	exp := make([]*big.Int, n) // expected value mod p, computed by the reference only
 	for i, l := range c.Init {
 		c04MustInShape(c04Shape, l, "Init")
